@@ -121,7 +121,8 @@ def compare_metadata(name, tin, tout, set_metadata, ctx, out):
     """Returns per-row 'other fields' lists (in, out) or None if not comparable (C32 clearing)."""
     same_schema = tin.metadata_schema == tout.metadata_schema
     if not same_schema:
-        had_nothing = tin.metadata_schema.schema is None and len(tin.metadata) == 0
+        had_nothing = (tin.metadata_schema.schema is None and len(tin.metadata) == 0
+                       and set_metadata is not False)
         cleared_ok = set_metadata is True and not MB.can_encode(tin)
         if had_nothing:
             ctx.label(f"{name}:default_schema_installed")
